@@ -4,6 +4,26 @@ import json, os, subprocess
 V = os.path.dirname(os.path.dirname(os.path.abspath(__file__)))
 
 CHECKS = {
+ "C12": dict(level="exploration", design="§3 C12",
+   text="Shorthand-vs-expansion monitor: 40 k (quick) / 2 M (thorough) descriptions, each printed as the shorthand and as its mechanical expansion - condensed comma rules vs the sequence of sub-rules, `_,X` vs `X_ , _X` mirrored, group letters vs the manual's matrices, optionals `(X,M:N)` (with pre- and multi-element post-context, in context or exception) vs the environment set of their repetitions, `A B > &` vs `A=1 B=2 > 2 1` - applied by the real interpreter to small words over {a k i t} in random syllabifications and to generated words; structural results (hook) must be equal or both fail (460 k applications quick).",
+   note="known finding KF-C12-1 (metathesis spellings differ when a long segment is swapped); the group table is copied from doc.md, not from the parser",
+   technique="metamorphic (shorthand vs expansion) runtime monitor on the structural hook"),
+ "C13": dict(level="exploration", design="§3 C13",
+   text="Respelling monitor on the public API: (1) exhaustive over the synonym table - every documented spelling of every feature, node and suprasegmental, plain and letter-spaced, x {input, context, output} x {+,-}, in the rule lexer and the alias lexer, against the canonical spelling on 24 words; (2) 40 k / 2 M generated rules printed plainly and with random documented spelling choices (arrow, `|` or `//`, `*` or `∅`, ellipsis form, bracket form, spaces in matrices, Greek/Latin and renamed alphas, renumbered variables, feature synonyms, trailing comment); (3) 40 k / 2 M words respelled with ' , : ; doubling ^ and the ASCII input aliases, incl. click clusters. Equal words or errors of the same kind are required.",
+   note="upper-case feature names are not tried (a leading capital inside a matrix is alpha syntax); doubling is only used after single-character segments",
+   technique="metamorphic (respelling) runtime monitor, exhaustive over the synonym table + generated rules and words"),
+ "C14": dict(level="exploration", design="§3 C14",
+   text="Tier-projection monitor: 300 k (quick) / 10 M (thorough) rules classified as segment-only (k matchers -> k matrices without length/stress/tone, or k plain ipa) or prosody-only (stress / tone setters, `$ > *`, `* > $`, `$X > &`, `X$ > &`), each with a generated context and exception from the full grammar, on generated words; the untouched tier of the hooked result (syllable count, per-syllable segment count, stress, tone - resp. the flat segment sequence) must equal that of the input.",
+   note="for ipa outputs per-syllable counts are not compared (documented shortening of long segments)",
+   technique="projection-equality runtime monitor on the structural hook"),
+ "C15": dict(level="exploration", design="§3 C15",
+   text="Alias monitor: 100 k (quick) / 3 M (thorough) cases; romaniser sets (1-5 lines in random order: one or two plain segments or a one-feature matrix > fresh string, `+`string, `*`, optional `$` line) are checked against a reference printer applied to the structural result of the run WITHOUT aliases - which establishes at once that the underlying words are the same and that the printed form is the default rendering rewritten by the table; deromaniser sets (fresh string > X or X:[+long]) are checked by encoding the word segment by segment and comparing run(R, encode(w), into=D) with run(R, w).",
+   note="`+` lines are judged on base phones only (the program appends to the nearest base phone by design); alias lines the program rejects are counted, not judged",
+   technique="reference-printer / encode-decode runtime monitor (structural hook + public API)"),
+ "C17": dict(level="fault_enumeration", design="§3 C17",
+   text="Fault-injection monitor: 60 (quick) / 1500 (thorough) valid projects (rule groups with blank and comment lines, words, alias lines) x a catalogue of 30 rule-syntax faults, 16 rule-runtime faults (each with a word that makes it fire), 15 alias faults and 8 word faults planted at EVERY position in turn (32 k runs quick); run must return Err, the matching formatter is called under catch_unwind, and its text is parsed: the named group/line (alias line, word) must be the planted one, the quoted line the planted text, and every caret within [0, chars(line)+1). The evidence lists the error variants reached.",
+   note="error texts are only parsed for position, quoted line and caret columns; position-less errors (e.g. DeletionOnlySeg) and empty caret spans are counted, not judged",
+   technique="fault injection at every position + offline check of the formatted error against the planted position"),
  "C01": dict(level="exploration", design="§3 C01",
    text="Multi-process differential on the public API: 8 (quick) / 48 (thorough) fresh processes - each with its own hash seed, the run reports how many distinct base-phone table orders they had - evaluate the same ~120 k inputs chosen to hit every tie-break of the renderer (`[] > [±F]` on every k-th base and base+diacritic spelling, the same through `+` romanisers, harvested rules x harvested words, error inputs, printed traces); every batch is also run twice in a row, with the words reversed, and as one list vs word by word. Any input whose result differs across processes, calls or orders is a violation.",
    note="hash seeds cannot be chosen, only sampled (distinct table orders observed are reported); thread-level concurrency is outside the property",
